@@ -2912,8 +2912,10 @@ int32 parseCertificate(ssl_t *ssl, unsigned char **cp, unsigned char *end)
         psTraceErrr("No certificate sent to verify\n");
         return MATRIXSSL_ERROR;
     }
-    if (end - c < 3)
+    if (end - c < 3 || (int32) (end - c) < certChainLen)
     {
+        /* The chain cannot be longer than the message that carries it:
+           the loop below trusts certChainLen for the 3-byte length reads. */
         ssl->err = SSL_ALERT_DECODE_ERROR;
         psTraceErrr("Invalid Certificate message\n");
         return MATRIXSSL_ERROR;
